@@ -77,7 +77,20 @@ def one_history(ctx, index: int, rng: random.Random):
         shift = [0.5]
         opts = {}
         align = True
+    # the width may arrive as a narrow numpy scalar (its float64 value is the width that counts) ...
+    wtype = None
+    width_args = list(widths)
+    if method == "fixed_width" and rng.random() < 0.15:
+        wtype = rng.choice([np.float32, np.float32, np.float16])
+        width_args = [wtype(w) for w in widths]
+        widths = [float(w) for w in width_args]
+        if any(not (w > 0) for w in widths):
+            wtype, width_args, widths = None, [1.0] * nd, [1.0] * nd
+    # ... and so may the values (scalars and arrays of float32 / float16): each one is a finite value in its own right
+    vtype = rng.choice([None, None, None, None, np.float32, np.float32, np.float16])
     centre = [rng.choice([0.0, 0.0, 1.0, -3.0, 100.0, 1e3]) for _ in range(nd)]
+    if vtype is np.float16:
+        centre = [c if abs(c) < 500 else 1.0 for c in centre]
     # far values: bounded so that the grown histogram stays below ~20000 cells (5000 bins in 1D)
     spread = rng.choice([3, 10, 10, 40, 200 if ctx.quick else 2000])
     if nd == 2:
@@ -85,7 +98,8 @@ def one_history(ctx, index: int, rng: random.Random):
     elif nd == 3:
         spread = min(spread, rng.choice([3, 8, 12]))
     prefilled = rng.random() < 0.4
-    desc = {"nd": nd, "widths": widths, "opts": opts, "method": method, "prefilled": prefilled, "steps": []}
+    desc = {"nd": nd, "widths": widths, "width_type": None if wtype is None else wtype.__name__, "value_type": None if vtype is None else vtype.__name__,
+            "opts": opts, "method": method, "prefilled": prefilled, "steps": []}
     near_grid = False
 
     def gen_rows(n):
@@ -98,22 +112,47 @@ def one_history(ctx, index: int, rng: random.Random):
                 near_grid = near_grid or ng
                 row.append(v)
             rows.append(row)
-        return np.array(rows, dtype=float).reshape(n, nd)
+        out = np.array(rows, dtype=float).reshape(n, nd)
+        if vtype is not None:
+            with np.errstate(over="ignore"):
+                out = out.astype(vtype).astype(float)  # exactly representable in the narrow type
+            out[~np.isfinite(out)] = 0.0
+        return out
 
     ledger_rows = np.zeros((0, nd))
     ledger_w = []
     weighted = rng.random() < 0.4
+    ranged = False
     try:
         kw = dict(opts)
         if method == "fixed_width":
-            kw["bin_width"] = widths[0] if nd == 1 else list(widths)
+            kw["bin_width"] = width_args[0] if nd == 1 else list(width_args)
         if prefilled:
             n0 = rng.randint(1, 12)
             init = gen_rows(n0)
+            if method == "fixed_width" and align and vtype is None and rng.random() < 0.25:
+                # range= on the grid, with a datum exactly on its upper limit (which belongs to the range): the adapted bins hold it too
+                ranges = []
+                for ax in range(nd):
+                    w_, s_ = widths[ax], shift[ax]
+                    k_lo = math.floor((float(init[:, ax].min()) - s_) / w_) - rng.randint(0, 2)
+                    k_hi = math.ceil((float(init[:, ax].max()) - s_) / w_) + rng.randint(1, 2)
+                    lo_, hi_ = k_lo * w_ + s_, k_hi * w_ + s_
+                    if not (lo_ <= float(init[:, ax].min()) and float(init[:, ax].max()) <= hi_):
+                        ranges = None
+                        break
+                    ranges.append((lo_, hi_))
+                if ranges:
+                    r_ = rng.randrange(n0)
+                    for ax in range(nd):
+                        init[r_, ax] = ranges[ax][1]
+                    kw["range"] = ranges[0] if nd == 1 else ranges
+                    ranged = True
+                    desc["range"] = ranges
             if nd == 1:
-                h = physt.h1(init[:, 0].copy(), method, adaptive=True, **kw)
+                h = physt.h1(init[:, 0].copy() if vtype is None else init[:, 0].astype(vtype), method, adaptive=True, **kw)
             else:
-                h = physt.h(init.copy(), method, adaptive=True, **kw)
+                h = physt.h(init.copy() if vtype is None else init.astype(vtype), method, adaptive=True, **kw)
             ledger_rows = np.vstack([ledger_rows, init])
             ledger_w += [1] * n0
             desc["steps"].append(["construct", gen.hexlist(init.ravel())])
@@ -156,6 +195,8 @@ def one_history(ctx, index: int, rng: random.Random):
                 r = gen_rows(1)
                 w = rng.randint(0, 24) / 8.0 if weighted else None
                 val = float(r[0, 0]) if nd == 1 else (r[0].copy() if rng.random() < 0.5 else r[0].tolist())
+                if vtype is not None:
+                    val = vtype(r[0, 0]) if nd == 1 else r[0].astype(vtype)
                 if w is None:
                     res = h.fill(val)
                 else:
@@ -173,6 +214,8 @@ def one_history(ctx, index: int, rng: random.Random):
                         r[rng.randrange(n), rng.randrange(nd)] = np.nan
                 ws = [rng.randint(0, 24) / 8.0 for _ in range(n)] if weighted else None
                 arg = r[:, 0].copy() if nd == 1 else r.copy()
+                if vtype is not None:
+                    arg = arg.astype(vtype)
                 if ws is None:
                     h.fill_n(arg)
                 else:
@@ -217,7 +260,7 @@ def one_history(ctx, index: int, rng: random.Random):
                 for ax in range(nd):
                     mn, mx = float(ledger_rows[:, ax].min()), float(ledger_rows[:, ax].max())
                     b = bins[ax]
-                    emptied = any(st[0] == "emptied_copy" for st in desc["steps"])  # keeps the bins of the histogram it was copied from
+                    emptied = ranged or any(st[0] == "emptied_copy" for st in desc["steps"])  # keeps the bins of the histogram it was copied from / of the requested range
                     if emptied:
                         if len(b) == 0 or not (b[0, 0] <= mn and mx < b[-1, 1]):
                             rec.fail(monitor="C04.history.final", op="final", symptom="bins do not cover the values entered", diff=["bins", "coverage"], detail={"axis": ax, **desc})
@@ -232,7 +275,7 @@ def one_history(ctx, index: int, rng: random.Random):
                                 rec.fail(monitor="C04.history.final", op="final", symptom="edges are not origin + k*width", diff=["bins"],
                                          detail={"axis": ax, "edge": edge, "ideal": ideal, **desc})
     nontrivial = any(_non_dyadic(w) for w in widths) and near_grid and grew_left and grew_right
-    rec.case(desc, nontrivial, cls=f"{nd}d/{method}/{'pre' if prefilled else 'empty'}/{'w' if weighted else 'u'}{'/noalign' if not align else ''}",
+    rec.case(desc, nontrivial, cls=f"{nd}d/{method}/{'pre' if prefilled else 'empty'}/{'w' if weighted else 'u'}{'/noalign' if not align else ''}{'/range' if ranged else ''}{'/w:' + wtype.__name__ if wtype else ''}{'/v:' + vtype.__name__ if vtype else ''}",
              sample={"widths": widths, "opts": opts, "prefilled": prefilled, "steps": [[s[0], gen.unhex(s[1])[:6]] for s in desc["steps"][:5]],
                      "final_bins": None if bins is None else [[float(b[0, 0]), float(b[-1, 1]), len(b)] for b in bins if len(b)],
                      "total": float(np.sum(snap.arr_values(final["frequencies"]).astype(float)))})
